@@ -493,6 +493,10 @@ impl State {
         ) = self.inner
         {
             if force || rotation_state.roll_state.rotation_necessary() {
+                // The content must be completely in the file before the file is rotated:
+                // as soon as it has its new name, the cleanup thread can compress or remove it.
+                current_write.flush()?;
+
                 let infix = match rotation_state.naming_state {
                     NamingState::Timestamps {
                         current_timestamp: ref mut ts,
